@@ -9,24 +9,25 @@ import (
 // cascade reads, plus the reference implementation of the stated cascade.
 
 type tableFeat struct {
-	Editable   bool
-	EditableAt string // div (wrapper around the table), body, html
-	Role       string // "", presentation, grid, treegrid, main
-	DescRole   string // "", row, gridcell, search
-	Datatable0 bool
-	Nested     bool
-	Rows, Cols int
-	Cells      int    // total td count in the body rows; 0 = rows*cols
-	Header     string // "", caption, thead, tfoot, colgroup, col, th
-	CellAttr   string // "", abbr, headers, scope, loneabbr
-	Summary    bool
-	Object     string // "", embed, object, applet, iframe
-	BlankCap   bool   // an empty <caption> in front of another header structure (never alone)
-	Pre        int    // another table before the one under test: 0 none, 1 scope cell, 2 headers cell, 3 lone abbr, 4 plain 2x2, 5 caption+th
-	RoleSpell  int    // spelling of role values: as is, trailing blank, leading blank, capitalised, with a fallback role after it
-	LongPage   bool   // the page has more than 500 words (the first extraction pass decides)
-	EditSpell  int    // spelling of the contenteditable attribute on a <div>: ="true", ="", bare, ="plaintext-only"
-	Place      string // div, section, blockquote, layout-td
+	Editable     bool
+	EditableAt   string // div (wrapper around the table), body, html
+	Role         string // "", presentation, grid, treegrid, main
+	DescRole     string // "", row, gridcell, search
+	Datatable0   bool
+	Nested       bool
+	Rows, Cols   int
+	Cells        int    // total td count in the body rows; 0 = rows*cols
+	Header       string // "", caption, thead, tfoot, colgroup, col, th
+	CellAttr     string // "", abbr, headers, scope, loneabbr
+	Summary      bool
+	Object       string // "", embed, object, applet, iframe
+	BlankCap     bool   // an empty <caption> in front of another header structure (never alone)
+	Pre          int    // another table before the one under test: 0 none, 1 scope cell, 2 headers cell, 3 lone abbr, 4 plain 2x2, 5 caption+th
+	DescOnNested bool   // the descendant role sits on the nested <table> element itself (round 6)
+	RoleSpell    int    // spelling of role values: as is, trailing blank, leading blank, capitalised, with a fallback role after it
+	LongPage     bool   // the page has more than 500 words (the first extraction pass decides)
+	EditSpell    int    // spelling of the contenteditable attribute on a <div>: ="true", ="", bare, ="plaintext-only"
+	Place        string // div, section, blockquote, layout-td
 }
 
 var (
@@ -240,7 +241,7 @@ func (f tableFeat) html(g *tokCounter) string {
 				case "scope":
 					sb.WriteString(` scope="col"`)
 				}
-				if f.DescRole != "" && f.DescRole != "row" {
+				if f.DescRole != "" && f.DescRole != "row" && !(f.DescOnNested && f.Nested) {
 					sb.WriteString(` role="` + f.spellRole(f.DescRole) + `"`)
 				}
 			}
@@ -254,7 +255,12 @@ func (f tableFeat) html(g *tokCounter) string {
 			}
 			last := r == f.Rows-1 && c == n-1
 			if last && f.Nested {
-				sb.WriteString("<table><tr><td>" + g.tok() + "</td></tr></table>")
+				if f.DescOnNested && f.DescRole != "" && f.DescRole != "row" {
+					// the nested <table> element is itself a direct descendant of the outer table
+					sb.WriteString(`<table role="` + f.spellRole(f.DescRole) + `"><tr><td>` + g.tok() + "</td></tr></table>")
+				} else {
+					sb.WriteString("<table><tr><td>" + g.tok() + "</td></tr></table>")
+				}
 			}
 			if last && f.Object != "" {
 				switch f.Object {
